@@ -31,6 +31,19 @@ class ScriptedFile(io.BufferedIOBase):
         return True
 
 
+class ScriptedPipe(ScriptedFile):
+    """A buffered binary file object that cannot seek (the read end of a pipe, `sock.makefile('rb')`)."""
+
+    def seekable(self):
+        return False
+
+    def seek(self, *a):
+        raise io.UnsupportedOperation("File or stream is not seekable.")
+
+    def tell(self):
+        raise io.UnsupportedOperation("File or stream is not seekable.")
+
+
 class ScriptedSocket(socket.socket):
     """A socket whose successive recv() results are scripted; afterwards the peer has closed (b'')."""
 
@@ -81,6 +94,8 @@ def make_source(kind, r, chunks):
         return ScriptedFile(chunks), ({"buffer_read_size_bytes": r} if r > 0 else {})
     if kind == "socket":
         return ScriptedSocket(chunks), ({"buffer_read_size_bytes": r} if r > 0 else {})
+    if kind == "pipe":
+        return ScriptedPipe(chunks), ({"buffer_read_size_bytes": r} if r > 0 else {})
     raise ValueError(kind)
 
 
